@@ -20,6 +20,10 @@ def scope_to_list(scope):
         return [to_unicode(s) for s in scope]
     elif scope is None:
         return None
+    elif not isinstance(scope, (str, bytes)):
+        # a value of another type, for instance from a token claim,
+        # names no scope
+        return []
     return scope.strip().split()
 
 
